@@ -45,7 +45,13 @@ def resolve_snippets(abbr: Abbreviation, config: Config):
         stack.pop()
 
         # Add attributes from current node into every top-level node of parsed abbreviation
+        has_elements = any(not is_text_node(n) for n in snippet_abbr.children)
         for top_node in snippet_abbr.children:
+            if has_elements and is_text_node(top_node):
+                # Text node beside elements, like `{<!DOCTYPE html>}` of `!` snippet:
+                # attributes and text of current node are for elements
+                continue
+
             if child.attributes:
                 from_attr = top_node.attributes or []
                 to_attr = child.attributes or []
@@ -79,6 +85,11 @@ def walk_resolve(node: AbbreviationNode, resolve: callable, config: Config) -> l
 
     node.children = children
     return children
+
+
+def is_text_node(node: AbbreviationNode):
+    "Check if given node is a text-only node: no name, no attributes"
+    return not node.name and node.attributes is None
 
 
 def merge(from_node: AbbreviationNode, to_node: AbbreviationNode):
